@@ -58,13 +58,23 @@ def gen_ops(ctx):
         details.append(sorted(getattr(new, "detail", [])))
     for (o, p), k, d in zip(L.write_pairs(ctx, pairs), kinds, details):
         items.append((k, "pair", o, p, {"detail": d}))
+    # a type used bare -- by constructor name, %Type, %ctor -- gains a constructor and NOTHING else changes: the new
+    # schema references a union constructor, which tlgen refuses on its own, so the linter is called directly
+    upairs, ukinds = [], []
+    for i in range(45 if quick else 600):
+        k = L.UNION_USAGE_KINDS[i % len(L.UNION_USAGE_KINDS)]
+        o, p, where = L.union_by_usage_pair(rng, k)
+        upairs.append((o, p))
+        ukinds.append((k, where))
+    for (o, p), (k, where) in zip(L.write_pairs(ctx, upairs, sub="upairs"), ukinds):
+        items.append((k, "direct", o, p, {"detail": [where]}))
     ops, go, dropped = L.build_lint_ops(ctx, items, variant)
     if ops is None:
         ctx._lint["err"] = go
         return []
     ctx.notes["dropped_not_individually_valid"] = dropped
     samp = [o for o in ops if o[1].startswith("sample") and o[2]["mode"] == "pair"]
-    rnd_ = [o for o in ops if not o[1].startswith("sample")]
+    rnd_ = [o for o in ops if not o[1].startswith("sample") and o[2]["mode"] == "pair"]   # the binary only has the pair route
     if quick:   # one process start per pair: a handful in the quick tier, all samples in the thorough one
         samp = samp[:: max(1, len(samp) // 3)][:3]
     sel = samp + rnd_[:: max(1, len(rnd_) // (6 if quick else 40))]
@@ -86,6 +96,8 @@ def sig_for(kind, data, out):
         return L.PROBE_SIGS[kind.split(":")[1]]
     if out == "crash":
         return "C30:F3:args-index-panic" if kind == "rm-targ" else f"C30:crash:{kind}"
+    if kind.startswith("union-") and out == "accept":
+        return f"C30:accepted-unsafe:{kind}"
     if out == "accept":
         if kind == "ty-rep" or (kind in ("bare-to-union", "bit-reuse-deep", "bit-reuse-targ") and detail == ["rep"]):
             return "C30:repeat-contents"
